@@ -151,6 +151,12 @@ func exercise(valueOf func(jsonapi.Attr, int) any, s gen.Shape, arg any, how str
 			return
 		}
 
+		// ... and the library's own comparison agrees.
+		if !typ.Equal(w.GetType()) || !typ.Equal(fresh.GetType()) {
+			msg = fmt.Sprintf("Type.Equal: the built type equals the wrapper's type: %v, the type of Type.New(): %v", typ.Equal(w.GetType()), typ.Equal(fresh.GetType()))
+			return
+		}
+
 		if n := w.New(); n == nil || n.GetType().Name != name {
 			msg = "Wrapper.New() does not return a resource of the type"
 			return
@@ -262,6 +268,41 @@ func exercise(valueOf func(jsonapi.Attr, int) any, s gen.Shape, arg any, how str
 		}
 	}); p != nil {
 		return fmt.Sprintf("Copy/New of a filled struct (%s): %s", how, p)
+	}
+
+	if msg != "" {
+		return msg
+	}
+
+	// A copy is equal to its source by the library's own comparison, also when
+	// the byte strings and lists are empty without being nil.
+	if p := oracle.Try(func() {
+		if cp := w.Copy(); !jsonapi.EqualStrict(w, cp) || !jsonapi.EqualStrict(cp, w) {
+			msg = "Wrapper.Copy() of a filled struct is not EqualStrict to its source"
+			return
+		}
+
+		for n, a := range w.Attrs() {
+			if a.Type == jsonapi.AttrTypeBytes {
+				if a.Nullable {
+					w.Set(n, &[]byte{})
+				} else {
+					w.Set(n, []byte{})
+				}
+			}
+		}
+
+		for n, rel := range w.Rels() {
+			if !rel.ToOne {
+				w.Set(n, []string{})
+			}
+		}
+
+		if cp := w.Copy(); !jsonapi.EqualStrict(w, cp) || !jsonapi.EqualStrict(cp, w) {
+			msg = "Wrapper.Copy() of a struct holding empty (non-nil) byte strings and lists is not EqualStrict to its source"
+		}
+	}); p != nil {
+		return fmt.Sprintf("Copy/EqualStrict (%s): %s", how, p)
 	}
 
 	if msg != "" {
